@@ -35,9 +35,14 @@ def run_c11(ctx):
     deep = ctx.params.get("tier") == "thorough"
     B = t.int_between(1, 4 if deep else 3, "B")
     per = t.int_between(1, 2, "per-batch")
+    if t.flag(1, 10, "big-batches"):
+        # the quantifier bounds the number of batches, not their size: sometimes
+        # batches of more than a hundred cases (results of a few kilobytes)
+        per = t.int_between(101, 130, "per-batch-big")
+        ctx.stats["big-batch-runs"] += 1
     kind = t.weighted([("scalar", 3), ("tuple2", 1), ("str", 1), ("array", 1)], "kind")
     nvals = B * per
-    vals = G.POOLS["int"][:nvals]
+    vals = G.POOLS["int"][:nvals] if nvals <= len(G.POOLS["int"]) else list(range(1, nvals + 1))
     sweep = Sweep(kind, [("a", vals)], None, {"k": 3} if t.flag(1, 3, "const") else {})
     fn = calllog.make_fn(kind, ["a"] + list(sweep.constants))
     shuffle = t.pick([False, True, 3], "shuffle")
